@@ -661,6 +661,7 @@ class _Scope:
         self.pending = []    # var names that will be declared later in this scope (hoisted reads)
         self.reserved = set()  # names that may not be declared with var here (params, functions)
         self.closures = []   # names of 0-argument closures defined so far (this scope only)
+        self.objs = []       # (name, kind, fields): object / array variables defined so far (this scope only)
         self.labels = []     # [(name, is_loop)] enclosing statements of this function
         self.loops = 0       # enclosing loops (continue / break targets) in this function
         self.switches = 0
@@ -733,6 +734,8 @@ class RandomBuilder:
                 return c
         if k < 0.86 and sc.closures:
             return call(id_(r.choice(sc.closures)))
+        if k < 0.93 and sc.objs and r.random() < 0.7:
+            return self.member_expr(sc, depth, mult)
         if k < 0.9 and vs:
             v = id_(r.choice(vs))
             return r.choice([upd("++", v), upd("--", v, True), assign(v, self.lit(), "+="), seq(assign(v, bin_("+", v, num(1))), v)])
@@ -742,6 +745,58 @@ class RandomBuilder:
         if vs:
             return bin_("+", id_(r.choice(vs)), self.lit())
         return self.lit()
+
+    def member_ref(self, sc):
+        name, kind, fields = self.r.choice(sc.objs)
+        if kind == "arr":
+            i = self.r.randrange(fields)
+            return idx(id_(name), num(i))
+        f = self.r.choice(fields)
+        return dot(id_(name), f) if self.chance(0.7) else idx(id_(name), s_(f))
+
+    def member_expr(self, sc, depth, mult):
+        """Number-valued read / update / compound assignment of a property."""
+        r = self.r
+        name, kind, fields = r.choice(sc.objs)
+        k = r.random()
+        if kind == "obj" and "g" in fields and k < 0.25:
+            self.extra_tags.add("getter")
+            return dot(id_(name), "g")
+        if kind == "arr" and k < 0.15:
+            return dot(id_(name), "length")
+        m = self.member_ref(sc)
+        while m[0] == "dot" and m[2] == "g" or (m[0] == "idx" and m[2] == ("str", "g")):
+            m = self.member_ref(sc)
+        if k < 0.5:
+            return m
+        self.extra_tags.add("member-update")
+        if k < 0.7:
+            return upd(r.choice(["++", "--"]), m, self.chance(0.5))
+        return assign(m, self.lit() if self.chance(0.6) else self.num_expr(sc, depth + 1, False, mult), r.choice(["+=", "-=", "=", "*="]))
+
+    def s_object(self, sc, depth, mult):
+        r = self.r
+        name = self.fresh("o")
+        sc.reserved.add(name)
+        if self.chance(0.4):
+            n = r.randint(2, 4)
+            st = var((name, arr(*[self.num_expr(sc, 1, False, mult) for _ in range(n)])))
+            sc.objs.append((name, "arr", n))
+            out = [st, log(self.tag(), idx(id_(name), num(r.randrange(n))))]
+            if sc.loops == 0 and mult == 1 and self.chance(0.4):
+                out += [expr(mcall(id_(name), "push", self.lit())), log(self.tag(), dot(id_(name), "length"))]
+            return out
+        fields = ["p", "q"]
+        props = [init("p", self.num_expr(sc, 1, False, mult)), init("q", self.lit())]
+        if self.chance(0.4):
+            vs = sc.visible_nums()
+            extra = id_(r.choice(vs)) if vs else num(1)
+            props.append(("get", ("id", "g"), [log(self.tag(), dot(THIS, "p")), ret(bin_("+", dot(THIS, "p"), extra))]))
+            fields = fields + ["g"]
+            self.extra_tags.add("getter")
+        st = var((name, obj(*props)))
+        sc.objs.append((name, "obj", fields))
+        return [st, log(self.tag(), dot(id_(name), "p"))]
 
     def bool_expr(self, sc, depth=0, mult=1):
         r = self.r
@@ -794,6 +849,7 @@ class RandomBuilder:
         out = []
         n = n if n is not None else self.r.randint(1, 4)
         nclosures = len(sc.closures)
+        nobjs = len(sc.objs)
         for _ in range(n):
             if self.left <= 0:
                 break
@@ -801,6 +857,7 @@ class RandomBuilder:
         if not out:
             out.append(log(self.tag(), self.num_expr(sc, 1, False, mult)))
         del sc.closures[nclosures:]  # a closure variable is used only where it is surely assigned
+        del sc.objs[nobjs:]
         return out
 
     def new_var_name(self, sc):
@@ -817,8 +874,13 @@ class RandomBuilder:
             return self.s_decl(sc, depth, mult)
         if k < 0.30:
             return self.s_assign(sc, depth, mult)
-        if k < 0.38:
+        if k < 0.345:
             return [log(self.tag(), self.num_expr(sc, 0, True, mult))]
+        if k < 0.38:
+            if sc.objs and self.chance(0.6):
+                m = self.member_expr(sc, 0, mult)
+                return [expr(m), log(self.tag(), self.member_ref(sc))]
+            return self.s_object(sc, depth, mult)
         if k < 0.48 and not deep:
             c = self.bool_expr(sc, 0, mult)
             then = block(*self.stmts(sc, depth + 1, mult))
